@@ -978,7 +978,7 @@ impl State {
         self.check_calc_limit_enabled()
     }
 
-    fn check_stack_limit(&mut self) -> Xresult {
+    pub(crate) fn check_stack_limit(&mut self) -> Xresult {
         #[cfg(feature = "calc_limit")]
         {
             let limit = self.stack_limit.unwrap_or(usize::MAX);
